@@ -701,19 +701,21 @@ theorem applyRec_inv' (P : GParams) (h : WF P) (s : GState) (hs : Inv P s) (u : 
   cases hsis : P.sis with
   | true =>
     obtain ⟨links', hl, hinvL, hwdL, hmemL, hgetL⟩ := recSIS_links P h s hs u hu hsis
-    have e : applyRec P s u t = some { status := fset s.status u St.S, inf := inf', links := links',
-        times := t :: s.times, S := (hd s.S + 1) :: s.S, I := (hd s.I - 1) :: s.I, R := s.R,
-        log := (t, GEvent.recover u) :: s.log } := by
+    have e : applyRec P s u t = some
+        { status := fset s.status u St.S, inf := inf', links := links',
+          times := t :: s.times, S := (hd s.S + 1) :: s.S, I := (hd s.I - 1) :: s.I, R := s.R,
+          log := (t, GEvent.recover u) :: s.log } := by
       simp only [applyRec, hinf', hsis, if_true, hl]; rfl
     exact ⟨_, e, key St.S links' (by simp) (fun _ => rfl) hinvL hwdL hmemL hgetL _ _ _ _ _,
       by simp [Chain.apply, hsis]⟩
   | false =>
     obtain ⟨links', hl, hinvL, hwdL, hmemL, hgetL⟩ := recSIR_links P h s hs u hu
-    have e : applyRec P s u t = some { status := fset s.status u St.R, inf := inf', links := links',
-        times := t :: s.times, S := hd s.S :: s.S, I := (hd s.I - 1) :: s.I, R := (hd s.R + 1) :: s.R,
-        log := (t, GEvent.recover u) :: s.log } := by
+    have e : applyRec P s u t = some
+        { status := fset s.status u St.R, inf := inf', links := links',
+          times := t :: s.times, S := hd s.S :: s.S, I := (hd s.I - 1) :: s.I, R := (hd s.R + 1) :: s.R,
+          log := (t, GEvent.recover u) :: s.log } := by
       simp only [applyRec, hinf', hsis, Bool.false_eq_true, if_false, hl]; rfl
-    exact ⟨_, e, key St.R links' (by simp) (fun hc => by simp at hc) hinvL hwdL hmemL hgetL _ _ _ _ _,
+    exact ⟨_, e, key St.R links' (by simp) (fun hc => by rw [hsis] at hc; cases hc) hinvL hwdL hmemL hgetL _ _ _ _ _,
       by simp [Chain.apply, hsis]⟩
 
 theorem applyTrans_inv' (P : GParams) (h : WF P) (s : GState) (hs : Inv P s) (u v : Node) (t : Rat)
@@ -728,9 +730,10 @@ theorem applyTrans_inv' (P : GParams) (h : WF P) (s : GState) (hs : Inv P s) (u 
   obtain ⟨hwdI, hmemI, hgetI⟩ := LD.update_any s.inf inf' v (nodeW P v) hinf'
   have hinvI : LD.Inv inf' := LD.inv_update s.inf inf' v (nodeW P v) hs.infInv (nodeW_nonneg P h v) hinf'
   obtain ⟨links', hl, hinvL, hwdL, hmemL, hgetL⟩ := trans_links P h s hs u v huv
-  have e : applyTrans P s u v t = some { status := fset s.status v St.I, inf := inf', links := links',
-      times := t :: s.times, S := (hd s.S - 1) :: s.S, I := (hd s.I + 1) :: s.I,
-      R := (if P.sis then s.R else hd s.R :: s.R), log := (t, GEvent.transmit u v) :: s.log } := by
+  have e : applyTrans P s u v t = some
+      { status := fset s.status v St.I, inf := inf', links := links',
+        times := t :: s.times, S := (hd s.S - 1) :: s.S, I := (hd s.I + 1) :: s.I,
+        R := (if P.sis then s.R else hd s.R :: s.R), log := (t, GEvent.transmit u v) :: s.log } := by
     simp only [applyTrans, hinf', hl]; rfl
   refine ⟨_, e, ?_, ?_⟩
   · refine ⟨hinvI, hinvL, hwdI.trans hs.infW, hwdL.trans hs.linkW, ?_, hmemL, ?_, hgetL, ?_⟩
@@ -758,5 +761,668 @@ theorem applyTrans_inv' (P : GParams) (h : WF P) (s : GState) (hs : Inv P s) (u 
       · subst ha; rw [fset_self]; simp
       · rw [fset_ne _ _ _ _ ha]; exact hs.sis_noR hsis a
   · simp [Chain.apply]
+
+/-! ### the initial state -/
+
+theorem initLinks_spec (P : GParams) (h : WF P) (status : Node → St) (node : Node) (hn : node ∈ P.nodes)
+    (links : LD (Node × Node)) (hinv : LD.Inv links) (hw : links.weighted = P.ew.isSome)
+    (hfresh : ∀ b, (node, b) ∉ links.items) :
+    ∃ links', initLinks P status node links (P.nbrs node) = some links' ∧ LD.Inv links' ∧
+      links'.weighted = links.weighted ∧
+      (∀ p, p ∈ links'.items ↔ (p ∈ links.items ∨ (p.1 = node ∧ p.2 ∈ P.nbrs node ∧ status p.2 = St.S))) ∧
+      (∀ f, P.ew = some f → ∀ p, p.1 = node → p.2 ∈ P.nbrs node → status p.2 = St.S →
+        links'.getW p = f node p.2) ∧
+      (∀ p, p.1 ≠ node → links'.getW p = links.getW p) := by
+  have hok : ∀ o ∈ initLinksOps P status node (P.nbrs node), o.ok links := by
+    intro o ho
+    obtain ⟨n, hn, hg⟩ := List.mem_filterMap.1 ho
+    split at hg
+    · cases hg
+      exact ⟨hfresh n, by rw [edgeW_isSome, hw], edgeW_nonneg P h node n⟩
+    · cases hg
+  obtain ⟨links', hl, hinv', hwd, hmem, hgw, hgo⟩ :=
+    LD.applyOps_spec _ links hinv (initLinksOps_keys P status node (P.nbrs node) (h.nbr_nodup node hn)) hok
+  simp only [mem_initLinksOps_upd, mem_initLinksOps_rem, not_false_eq_true, and_true] at hmem hgw
+  refine ⟨links', by rw [initLinks_eq]; exact hl, hinv', hwd, ?_, ?_, ?_⟩
+  · intro p
+    rw [hmem p]
+    constructor
+    · rintro (h1 | ⟨w, h1, h2, h3, -⟩)
+      · exact Or.inl h1
+      · exact Or.inr ⟨h1, h2, h3⟩
+    · rintro (h1 | ⟨h1, h2, h3⟩)
+      · exact Or.inl h1
+      · exact Or.inr ⟨_, h1, h2, h3, rfl⟩
+  · intro f hf p h1 h2 h3
+    exact hgw p (f node p.2) ⟨h1, h2, h3, (edgeW_some P f hf node p.2).symm⟩
+  · intro p hp
+    apply hgo p
+    intro o ho
+    obtain ⟨n, hn, hg⟩ := List.mem_filterMap.1 ho
+    split at hg
+    · cases hg
+      intro hc
+      exact hp (by rw [← hc]; rfl)
+    · cases hg
+
+theorem initLoop_spec (P : GParams) (h : WF P) (status : Node → St) (l : List Node) (hl : l.Nodup)
+    (hln : ∀ n ∈ l, n ∈ P.nodes) (inf : LD Node) (links : LD (Node × Node))
+    (hinvI : LD.Inv inf) (hinvL : LD.Inv links)
+    (hwI : inf.weighted = P.nw.isSome) (hwL : links.weighted = P.ew.isSome)
+    (hfI : ∀ n ∈ l, n ∉ inf.items) (hfL : ∀ n ∈ l, ∀ b, (n, b) ∉ links.items) :
+    ∃ inf' links', initLoop P status l inf links = some (inf', links') ∧ LD.Inv inf' ∧ LD.Inv links' ∧
+      inf'.weighted = P.nw.isSome ∧ links'.weighted = P.ew.isSome ∧
+      (∀ a, a ∈ inf'.items ↔ (a ∈ inf.items ∨ a ∈ l)) ∧
+      (∀ p, p ∈ links'.items ↔ (p ∈ links.items ∨ (p.1 ∈ l ∧ p.2 ∈ P.nbrs p.1 ∧ status p.2 = St.S))) ∧
+      (∀ f, P.nw = some f → ∀ a ∈ l, inf'.getW a = f a) ∧
+      (∀ a, a ∉ l → inf'.getW a = inf.getW a) ∧
+      (∀ f, P.ew = some f → ∀ p, p.1 ∈ l → p.2 ∈ P.nbrs p.1 → status p.2 = St.S →
+        links'.getW p = f p.1 p.2) ∧
+      (∀ p, p.1 ∉ l → links'.getW p = links.getW p) := by
+  induction l generalizing inf links with
+  | nil =>
+    exact ⟨inf, links, rfl, hinvI, hinvL, hwI, hwL, by simp, by simp, by simp, fun _ _ => rfl, by simp,
+      fun _ _ => rfl⟩
+  | cons node rest ih =>
+    rw [List.nodup_cons] at hl
+    obtain ⟨hnr, hrest⟩ := hl
+    have hnode : node ∈ P.nodes := hln node (by simp)
+    obtain ⟨inf1, hinf1⟩ := LD.update_exists inf node (nodeW P node) (by rw [nodeW_isSome, hwI])
+    obtain ⟨hwd1, hmem1, hget1⟩ := LD.update_any inf inf1 node (nodeW P node) hinf1
+    have hinv1 : LD.Inv inf1 := LD.inv_update inf inf1 node (nodeW P node) hinvI (nodeW_nonneg P h node) hinf1
+    obtain ⟨links1, hl1, hinvL1, hwdL1, hmemL1, hgwL1, hgoL1⟩ :=
+      initLinks_spec P h status node hnode links hinvL hwL (hfL node (by simp))
+    obtain ⟨inf', links', hloop, hI', hL', hwI', hwL', hmemI', hmemL', hgI', hgoI', hgL', hgoL'⟩ :=
+      ih hrest (fun n hn => hln n (by simp [hn])) inf1 links1 hinv1 hinvL1 (hwd1.trans hwI)
+        (hwdL1.trans hwL)
+        (by
+          intro n hn
+          rw [hmem1]; rintro (h1 | h1)
+          · exact hfI n (by simp [hn]) h1
+          · exact hnr (h1 ▸ hn))
+        (by
+          intro n hn b
+          rw [hmemL1]; rintro (h1 | ⟨h1, -⟩)
+          · exact hfL n (by simp [hn]) b h1
+          · exact hnr (h1 ▸ hn))
+    refine ⟨inf', links', ?_, hI', hL', hwI', hwL', ?_, ?_, ?_, ?_, ?_, ?_⟩
+    · simp only [initLoop, hinf1, hl1]; exact hloop
+    · intro a
+      rw [hmemI', hmem1, List.mem_cons]
+      constructor
+      · rintro ((h1 | h1) | h1)
+        · exact Or.inl h1
+        · exact Or.inr (Or.inl h1)
+        · exact Or.inr (Or.inr h1)
+      · rintro (h1 | h1 | h1)
+        · exact Or.inl (Or.inl h1)
+        · exact Or.inl (Or.inr h1)
+        · exact Or.inr h1
+    · intro p
+      rw [hmemL', hmemL1, List.mem_cons]
+      constructor
+      · rintro ((h1 | ⟨h1, h2, h3⟩) | ⟨h1, h2, h3⟩)
+        · exact Or.inl h1
+        · exact Or.inr ⟨Or.inl h1, h1 ▸ h2, h3⟩
+        · exact Or.inr ⟨Or.inr h1, h2, h3⟩
+      · rintro (h1 | ⟨h1 | h1, h2, h3⟩)
+        · exact Or.inl (Or.inl h1)
+        · exact Or.inl (Or.inr ⟨h1, h1 ▸ h2, h3⟩)
+        · exact Or.inr ⟨h1, h2, h3⟩
+    · intro f hf a ha
+      rcases List.mem_cons.1 ha with h1 | h1
+      · subst h1
+        rw [hgoI' a hnr]
+        rw [nodeW_some P f hf] at hinf1
+        rw [LD.update_getW_self inf inf1 a (f a) hinf1,
+          LD.getW_of_not_mem inf hinvI (by rw [hwI, hf]; rfl) a (hfI a (by simp))]
+        ring
+      · exact hgI' f hf a h1
+    · intro a ha
+      rw [List.mem_cons, not_or] at ha
+      rw [hgoI' a ha.2, hget1 a ha.1]
+    · intro f hf p h1 h2 h3
+      rcases List.mem_cons.1 h1 with h1 | h1
+      · have hpr : p.1 ∉ rest := h1 ▸ hnr
+        rw [hgoL' p hpr, hgwL1 f hf p h1 (h1 ▸ h2) h3, h1]
+      · exact hgL' f hf p h1 h2 h3
+    · intro p hp
+      rw [List.mem_cons, not_or] at hp
+      rw [hgoL' p hp.2, hgoL1 p hp.1]
+
+theorem init_inv' (P : GParams) (h : WF P) (infs recs : List Node) (tmin : Rat)
+    (hi : infs.Nodup) (him : ∀ u ∈ infs, u ∈ P.nodes) (hd : ∀ u ∈ infs, u ∉ recs)
+    (hsis : P.sis = true → recs = []) :
+    ∃ s, init P infs recs tmin = some s ∧ Inv P s ∧ s.status = initStatus infs recs := by
+  obtain ⟨inf', links', hloop, hI', hL', hwI', hwL', hmemI', hmemL', hgI', -, hgL', -⟩ :=
+    initLoop_spec P h (initStatus infs recs) infs hi him (LD.empty P.nw.isSome) (LD.empty P.ew.isSome)
+      (LD.inv_empty _) (LD.inv_empty _) rfl rfl (by simp [LD.empty]) (by simp [LD.empty])
+  have hstI : ∀ a, initStatus infs recs a = St.I ↔ a ∈ infs := by
+    intro a
+    unfold initStatus
+    by_cases h1 : a ∈ recs
+    · simp only [h1, if_true]
+      constructor
+      · intro hc; cases hc
+      · intro hc; exact absurd h1 (hd a hc)
+    · by_cases h2 : a ∈ infs <;> simp [h1, h2]
+  have e : init P infs recs tmin = some
+      { status := initStatus infs recs, inf := inf', links := links', times := [tmin],
+        S := [(P.nodes.length : Int) - (infs.length : Int) - (recs.length : Int)],
+        I := [(infs.length : Int)], R := [(recs.length : Int)], log := [] } := by
+    simp only [init, hloop]
+  refine ⟨_, e, ?_, rfl⟩
+  refine ⟨hI', hL', hwI', hwL', ?_, ?_, ?_, ?_, ?_⟩
+  · intro a
+    show a ∈ inf'.items ↔ (a ∈ P.nodes ∧ initStatus infs recs a = St.I)
+    rw [hmemI', hstI]
+    simp only [LD.empty, List.not_mem_nil, false_or]
+    exact ⟨fun ha => ⟨him a ha, ha⟩, fun ha => ha.2⟩
+  · intro a b
+    show (a, b) ∈ links'.items ↔
+      (a ∈ P.nodes ∧ initStatus infs recs a = St.I ∧ b ∈ P.nbrs a ∧ initStatus infs recs b = St.S)
+    rw [hmemL', hstI]
+    simp only [LD.empty, List.not_mem_nil, false_or]
+    exact ⟨fun ⟨h1, h2, h3⟩ => ⟨him a h1, h1, h2, h3⟩, fun ⟨_, h1, h2, h3⟩ => ⟨h1, h2, h3⟩⟩
+  · intro f hf a ha
+    show inf'.getW a = f a
+    have ha' : a ∈ infs := by
+      have := (hmemI' a).1 ha
+      simpa [LD.empty] using this
+    exact hgI' f hf a ha'
+  · intro f hf p hp
+    show links'.getW p = f p.1 p.2
+    have hp' := (hmemL' p).1 hp
+    simp only [LD.empty, List.not_mem_nil, false_or] at hp'
+    exact hgL' f hf p hp'.1 hp'.2.1 hp'.2.2
+  · intro hs a
+    show initStatus infs recs a ≠ St.R
+    unfold initStatus
+    rw [hsis hs]
+    by_cases h2 : a ∈ infs <;> simp [h2]
+
+end Gillespie
+
+/-! ### inversion lemmas for the tape monad -/
+namespace TM
+
+theorem bind_ok {α β : Type} (m : TM α) (k : α → TM β) (ts ts' : TapeSt) (b : β)
+    (h : (m >>= k) ts = .ok (b, ts')) : ∃ a ts1, m ts = .ok (a, ts1) ∧ k a ts1 = .ok (b, ts') := by
+  simp only [bind, StateT.bind] at h
+  cases hm : m ts with
+  | error e => rw [hm] at h; cases h
+  | ok p =>
+    obtain ⟨a, ts1⟩ := p
+    rw [hm] at h
+    exact ⟨a, ts1, rfl, h⟩
+
+theorem bind_err {α β : Type} (m : TM α) (k : α → TM β) (ts : TapeSt) (e : String)
+    (h : (m >>= k) ts = .error e) :
+    m ts = .error e ∨ ∃ a ts1, m ts = .ok (a, ts1) ∧ k a ts1 = .error e := by
+  simp only [bind, StateT.bind] at h
+  cases hm : m ts with
+  | error e' => rw [hm] at h; exact Or.inl (by simpa [Except.bind] using h)
+  | ok p =>
+    obtain ⟨a, ts1⟩ := p
+    rw [hm] at h
+    exact Or.inr ⟨a, ts1, rfl, h⟩
+
+theorem pure_ok {α : Type} (a b : α) (ts ts' : TapeSt) (h : (pure a : TM α) ts = .ok (b, ts')) :
+    b = a ∧ ts' = ts := by
+  simp only [pure, StateT.pure] at h
+  cases h; exact ⟨rfl, rfl⟩
+
+theorem pure_ne_err {α : Type} (a : α) (ts : TapeSt) (e : String) : (pure a : TM α) ts ≠ .error e := by
+  simp [pure, StateT.pure, Except.pure]
+
+theorem fail_ne_ok {α : Type} (msg : String) (ts : TapeSt) (r : α × TapeSt) :
+    (TM.fail msg : TM α) ts ≠ .ok r := by
+  simp [TM.fail]
+
+theorem popUnif_err (ts : TapeSt) (e : String) (h : popUnif ts = .error e) : e ≠ "KeyError" := by
+  unfold popUnif at h
+  split at h <;> cases h <;> decide
+
+theorem popExpo_err (rate : Rat) (ts : TapeSt) (e : String) (h : popExpo rate ts = .error e) :
+    e ≠ "KeyError" := by
+  unfold popExpo at h
+  split at h
+  · cases h; decide
+  · split at h <;> cases h <;> decide
+
+theorem popChoice_err (seq : List (List Nat)) (ts : TapeSt) (e : String) (h : popChoice seq ts = .error e) :
+    e ≠ "KeyError" := by
+  unfold popChoice at h
+  split at h
+  · cases h; decide
+  · split at h
+    · split at h <;> cases h; decide
+    · cases h; decide
+    · cases h; decide
+
+end TM
+
+namespace Gillespie
+
+theorem chooseTM_mem {α : Type} [DecidableEq α] (enc : α → List Nat) (ld : LD α) (fuel : Nat)
+    (ts ts' : TapeSt) (c : α) (hc : chooseTM enc ld fuel ts = .ok (c, ts')) : c ∈ ld.items := by
+  induction fuel generalizing ts with
+  | zero => exact absurd hc (TM.fail_ne_ok _ _ _)
+  | succ fuel ih =>
+    rw [chooseTM] at hc
+    obtain ⟨i, ts1, -, h2⟩ := TM.bind_ok _ _ _ _ _ hc
+    cases hi : ld.items[i]? with
+    | none => rw [hi] at h2; exact absurd h2 (TM.fail_ne_ok _ _ _)
+    | some c' =>
+      rw [hi] at h2
+      have hmem : c' ∈ ld.items := List.mem_of_getElem? hi
+      dsimp only at h2
+      split at h2
+      · obtain ⟨rfl, -⟩ := TM.pure_ok _ _ _ _ h2; exact hmem
+      · split at h2
+        · exact absurd h2 (TM.fail_ne_ok _ _ _)
+        · obtain ⟨r, ts2, -, h4⟩ := TM.bind_ok _ _ _ _ _ h2
+          split at h4
+          · obtain ⟨rfl, -⟩ := TM.pure_ok _ _ _ _ h4; exact hmem
+          · exact ih ts2 h4
+
+theorem chooseTM_err {α : Type} [DecidableEq α] (enc : α → List Nat) (ld : LD α) (fuel : Nat)
+    (ts : TapeSt) (e : String) (hc : chooseTM enc ld fuel ts = .error e) : e ≠ "KeyError" := by
+  induction fuel generalizing ts with
+  | zero => simp only [chooseTM, TM.fail] at hc; cases hc; decide
+  | succ fuel ih =>
+    rw [chooseTM] at hc
+    rcases TM.bind_err _ _ _ _ hc with h1 | ⟨i, ts1, -, h2⟩
+    · exact TM.popChoice_err _ _ _ h1
+    · cases hi : ld.items[i]? with
+      | none => rw [hi] at h2; simp only [TM.fail] at h2; cases h2; decide
+      | some c' =>
+        rw [hi] at h2
+        dsimp only at h2
+        split at h2
+        · exact absurd h2 (TM.pure_ne_err _ _ _)
+        · split at h2
+          · simp only [TM.fail] at h2; cases h2; decide
+          · rcases TM.bind_err _ _ _ _ h2 with h3 | ⟨r, ts2, -, h4⟩
+            · exact TM.popUnif_err _ _ h3
+            · split at h4
+              · exact absurd h4 (TM.pure_ne_err _ _ _)
+              · exact ih ts2 h4
+
+/-- the event is enabled in `s`: its candidate is in the corresponding `_ListDict_` -/
+def Enabled (s : GState) : GEvent → Prop
+  | .recover u => u ∈ s.inf.items
+  | .transmit u v => (u, v) ∈ s.links.items
+
+theorem pick_enabled' (P : GParams) (s : GState) (fuel : Nat) (ts ts' : TapeSt) (e : GEvent)
+    (hp : pick P s fuel ts = .ok (e, ts')) : Enabled s e := by
+  unfold pick at hp
+  obtain ⟨r, ts1, -, h2⟩ := TM.bind_ok _ _ _ _ _ hp
+  split at h2
+  · obtain ⟨u, ts2, h3, h4⟩ := TM.bind_ok _ _ _ _ _ h2
+    obtain ⟨rfl, -⟩ := TM.pure_ok _ _ _ _ h4
+    exact chooseTM_mem _ _ _ _ _ _ h3
+  · obtain ⟨⟨u, v⟩, ts2, h3, h4⟩ := TM.bind_ok _ _ _ _ _ h2
+    obtain ⟨rfl, -⟩ := TM.pure_ok _ _ _ _ h4
+    exact chooseTM_mem _ _ _ _ _ _ h3
+
+theorem pick_err (P : GParams) (s : GState) (fuel : Nat) (ts : TapeSt) (e : String)
+    (hp : pick P s fuel ts = .error e) : e ≠ "KeyError" := by
+  unfold pick at hp
+  rcases TM.bind_err _ _ _ _ hp with h1 | ⟨r, ts1, -, h2⟩
+  · exact TM.popUnif_err _ _ h1
+  · split at h2
+    · rcases TM.bind_err _ _ _ _ h2 with h3 | ⟨u, ts2, -, h4⟩
+      · exact chooseTM_err _ _ _ _ _ h3
+      · exact absurd h4 (TM.pure_ne_err _ _ _)
+    · rcases TM.bind_err _ _ _ _ h2 with h3 | ⟨⟨u, v⟩, ts2, -, h4⟩
+      · exact chooseTM_err _ _ _ _ _ h3
+      · exact absurd h4 (TM.pure_ne_err _ _ _)
+
+/-- an enabled event can be applied: no KeyError, invariant preserved -/
+theorem applyEvent_inv (P : GParams) (h : WF P) (s : GState) (hs : Inv P s) (e : GEvent) (t : Rat)
+    (he : Enabled s e) :
+    ∃ s', applyEvent P s e t = some s' ∧ Inv P s' := by
+  cases e with
+  | recover u =>
+    obtain ⟨s', h1, h2, -⟩ := applyRec_inv' P h s hs u t he
+    exact ⟨s', h1, h2⟩
+  | transmit u v =>
+    obtain ⟨s', h1, h2, -⟩ := applyTrans_inv' P h s hs u v t he
+    exact ⟨s', h1, h2⟩
+
+theorem loop_inv' (P : GParams) (h : WF P) (tmax : ERat) (cfuel fuel : Nat) (s s' : GState) (t : ERat)
+    (ts ts' : TapeSt) (hs : Inv P s) (hl : loop P tmax cfuel fuel s t ts = .ok (s', ts')) : Inv P s' := by
+  induction fuel generalizing s t ts with
+  | zero => rw [loop] at hl; exact absurd hl (TM.fail_ne_ok _ _ _)
+  | succ fuel ih =>
+    cases t with
+    | none =>
+      rw [loop] at hl
+      obtain ⟨rfl, -⟩ := TM.pure_ok _ _ _ _ hl; exact hs
+    | some tv =>
+      rw [loop] at hl
+      split at hl
+      · obtain ⟨rfl, -⟩ := TM.pure_ok _ _ _ _ hl; exact hs
+      · obtain ⟨e, ts1, h1, h2⟩ := TM.bind_ok _ _ _ _ _ hl
+        obtain ⟨s1, hs1, hinv1⟩ := applyEvent_inv P h s hs e tv (pick_enabled' P s cfuel ts ts1 e h1)
+        rw [hs1] at h2
+        dsimp only at h2
+        split at h2
+        · obtain ⟨d, ts2, -, h4⟩ := TM.bind_ok _ _ _ _ _ h2
+          exact ih s1 _ ts2 hinv1 h4
+        · exact ih s1 _ ts1 hinv1 h2
+
+theorem loop_no_keyerror' (P : GParams) (h : WF P) (tmax : ERat) (cfuel fuel : Nat) (s : GState) (t : ERat)
+    (ts : TapeSt) (hs : Inv P s) : loop P tmax cfuel fuel s t ts ≠ .error "KeyError" := by
+  induction fuel generalizing s t ts with
+  | zero =>
+    rw [loop]; simp only [TM.fail]; intro hc
+    injection hc with hc
+    exact absurd hc (by decide)
+  | succ fuel ih =>
+    intro hl
+    cases t with
+    | none => rw [loop] at hl; exact absurd hl (TM.pure_ne_err _ _ _)
+    | some tv =>
+      rw [loop] at hl
+      split at hl
+      · exact absurd hl (TM.pure_ne_err _ _ _)
+      · rcases TM.bind_err _ _ _ _ hl with h1 | ⟨e, ts1, h1, h2⟩
+        · exact pick_err P s cfuel ts _ h1 rfl
+        · obtain ⟨s1, hs1, hinv1⟩ := applyEvent_inv P h s hs e tv (pick_enabled' P s cfuel ts ts1 e h1)
+          rw [hs1] at h2
+          dsimp only at h2
+          split at h2
+          · rcases TM.bind_err _ _ _ _ h2 with h3 | ⟨d, ts2, -, h4⟩
+            · exact TM.popExpo_err _ _ _ h3 rfl
+            · exact ih s1 _ ts2 hinv1 h4
+          · exact ih s1 _ ts1 hinv1 h2
+
+theorem run_inv' (P : GParams) (h : WF P) (infs recs : List Node) (tmin : Rat) (tmax : ERat)
+    (fuel cfuel : Nat) (hi : infs.Nodup) (him : ∀ u ∈ infs, u ∈ P.nodes)
+    (hd : ∀ u ∈ infs, u ∉ recs) (hsis : P.sis = true → recs = []) (ts ts' : TapeSt) (s' : GState)
+    (hrun : run P infs recs tmin tmax fuel cfuel ts = .ok (s', ts')) : Inv P s' := by
+  obtain ⟨s0, h0, hinv0, -⟩ := init_inv' P h infs recs tmin hi him hd hsis
+  unfold run at hrun
+  rw [h0] at hrun
+  dsimp only at hrun
+  split at hrun
+  · obtain ⟨d, ts1, -, h2⟩ := TM.bind_ok _ _ _ _ _ hrun
+    exact loop_inv' P h tmax cfuel fuel s0 s' _ ts1 ts' hinv0 h2
+  · exact loop_inv' P h tmax cfuel fuel s0 s' _ ts ts' hinv0 hrun
+
+/-! ### enabled sets and the clock -/
+
+theorem enabled_iff' (P : GParams) (s : GState) (hs : Inv P s) :
+    (∀ u, u ∈ Chain.enabledRec P s.status ↔ u ∈ s.inf.items) ∧
+    (∀ p, p ∈ Chain.enabledTrans P s.status ↔ p ∈ s.links.items) := by
+  constructor
+  · intro u
+    rw [hs.inf_items]
+    simp [Chain.enabledRec, List.mem_filter]
+  · rintro ⟨a, b⟩
+    rw [hs.link_items]
+    simp only [Chain.enabledTrans, List.mem_flatMap]
+    constructor
+    · rintro ⟨x, hx, hp⟩
+      split at hp
+      · rename_i hxI
+        simp only [List.mem_map, List.mem_filter, decide_eq_true_eq] at hp
+        obtain ⟨y, ⟨hy1, hy2⟩, hxy⟩ := hp
+        cases hxy
+        exact ⟨hx, hxI, hy1, hy2⟩
+      · simp at hp
+    · rintro ⟨h1, h2, h3, h4⟩
+      refine ⟨a, h1, ?_⟩
+      rw [if_pos h2]
+      simp only [List.mem_map, List.mem_filter, decide_eq_true_eq]
+      exact ⟨b, ⟨h3, h4⟩, rfl⟩
+
+theorem enabledRec_nodup (P : GParams) (h : WF P) (st : Node → St) : (Chain.enabledRec P st).Nodup :=
+  h.nodup.filter _
+
+theorem enabledTrans_nodup (P : GParams) (h : WF P) (st : Node → St) : (Chain.enabledTrans P st).Nodup := by
+  unfold Chain.enabledTrans
+  rw [List.nodup_flatMap]
+  constructor
+  · intro x hx
+    split
+    · refine List.Nodup.map ?_ ((h.nbr_nodup x hx).filter _)
+      intro a b hab
+      exact (Prod.mk.inj hab).2
+    · exact List.nodup_nil
+  · refine h.nodup.pairwise_of_forall_ne ?_
+    intro a _ b _ hab
+    have key : ∀ (x : Node) (p : Node × Node),
+        p ∈ (if st x = St.I then ((P.nbrs x).filter fun v => st v = St.S).map fun v => (x, v) else []) →
+        p.1 = x := by
+      intro x p hp
+      split at hp
+      · simp only [List.mem_map] at hp
+        obtain ⟨y, -, rfl⟩ := hp
+        rfl
+      · simp at hp
+    intro p hp1 hp2
+    exact hab ((key a p hp1).symm.trans (key b p hp2))
+
+theorem rec_rate_eq (P : GParams) (s : GState) (hs : Inv P s) :
+    recRate P s = sumRat (s.inf.items.map (Chain.nodeRate P)) := by
+  unfold recRate LD.totalWeight Chain.nodeRate
+  cases hf : P.nw with
+  | none =>
+    have hw : s.inf.weighted = false := by rw [hs.infW, hf]; rfl
+    simp only [hw, Bool.false_eq_true, if_false]
+    rw [sumRat_map_const]; ring
+  | some f =>
+    have hw : s.inf.weighted = true := by rw [hs.infW, hf]; rfl
+    simp only [hw, if_true]
+    rw [hs.infInv.total hw, sumRat_map_mul_left]
+    unfold LD.weightSum
+    rw [sumRat_map_congr _ _ _ (hs.inf_w f hf)]
+
+theorem trans_rate_eq (P : GParams) (s : GState) (hs : Inv P s) :
+    transRate P s = sumRat (s.links.items.map fun p => Chain.edgeRate P p.1 p.2) := by
+  unfold transRate LD.totalWeight Chain.edgeRate
+  cases hf : P.ew with
+  | none =>
+    have hw : s.links.weighted = false := by rw [hs.linkW, hf]; rfl
+    simp only [hw, Bool.false_eq_true, if_false]
+    rw [sumRat_map_const]; ring
+  | some f =>
+    have hw : s.links.weighted = true := by rw [hs.linkW, hf]; rfl
+    simp only [hw, if_true]
+    rw [hs.linkInv.total hw, sumRat_map_mul_left s.links.items (fun p => f p.1 p.2) P.tau]
+    unfold LD.weightSum
+    rw [sumRat_map_congr _ _ _ (hs.link_w f hf)]
+
+theorem clock_eq' (P : GParams) (h : WF P) (s : GState) (hs : Inv P s) :
+    totalRate P s = Chain.totalRate P s.status := by
+  obtain ⟨h1, h2⟩ := enabled_iff' P s hs
+  have p1 : s.inf.items.Perm (Chain.enabledRec P s.status) :=
+    (List.perm_ext_iff_of_nodup hs.infInv.nodup (enabledRec_nodup P h _)).2 fun a => (h1 a).symm
+  have p2 : s.links.items.Perm (Chain.enabledTrans P s.status) :=
+    (List.perm_ext_iff_of_nodup hs.linkInv.nodup (enabledTrans_nodup P h _)).2 fun a => (h2 a).symm
+  unfold totalRate Chain.totalRate
+  rw [rec_rate_eq P s hs, trans_rate_eq P s hs, sumRat_perm (p1.map _), sumRat_perm (p2.map _)]
+
+end Gillespie
+
+/-! ### distributions: push-forward and support -/
+namespace Dist
+variable {α β : Type}
+
+theorem mass_push (g : α → β) (d : Dist α) (Q : β → Bool) :
+    mass (Dist.push g d) Q = mass d (fun a => Q (g a)) := by
+  induction d with
+  | nil => rfl
+  | cons x xs ih =>
+    obtain ⟨a, p⟩ := x
+    have : Dist.push g ((a, p) :: xs) = (g a, p) :: Dist.push g xs := rfl
+    rw [this, mass_cons, mass_cons, ih]
+
+theorem mass_false (d : Dist α) : mass d (fun _ => false) = 0 := by
+  induction d with
+  | nil => rfl
+  | cons x xs ih =>
+    obtain ⟨a, p⟩ := x
+    rw [mass_cons, ih]; simp
+
+end Dist
+
+namespace LD
+variable {α : Type} [DecidableEq α]
+open Dist
+
+/-- the event "the sampler returned `x`", with the `BEq` instance of the generic law theorems -/
+def eqSome (x : α) : Option α → Bool := fun o => o == some x
+
+theorem choose_law_eqSome (s : LD α) (h : Inv s) (hwt : s.weighted = true) (hpos : 0 < s.weightSum)
+    (x : α) (hx : x ∈ s.items) (k : Nat) :
+    mass (s.chooseDist k) (eqSome x) = s.getW x / s.weightSum * (1 - s.rejProb ^ k) :=
+  choose_law s h hwt hpos x hx k
+
+theorem choose_law_unweighted_eqSome (s : LD α) (h : Inv s) (hwt : s.weighted = false)
+    (x : α) (hx : x ∈ s.items) (k : Nat) :
+    mass (s.chooseDist (k + 1)) (eqSome x) = 1 / (s.items.length : Rat) :=
+  choose_law_unweighted s h hwt x hx k
+
+/-- only listed candidates can be chosen -/
+theorem chooseDist_not_mem (s : LD α) (x : α) (hx : x ∉ s.items) (k : Nat) :
+    mass (s.chooseDist k) (eqSome x) = 0 := by
+  unfold eqSome
+  induction k with
+  | zero => simp [chooseDist, mass_pure]
+  | succ k ih =>
+    rw [chooseDist_succ_mass, ih]
+    apply sumRat_map_zero
+    intro c hc
+    have hcx : c ≠ x := fun hc' => hx (hc' ▸ hc)
+    simp [hcx]
+
+end LD
+
+namespace Gillespie
+open Dist
+
+theorem mass_pick (P : GParams) (s : GState) (k : Nat) (Q : Option GEvent → Bool) :
+    mass (pickDist P s k) Q =
+      recThr P s * mass (s.inf.chooseDist k) (fun o => Q (o.map GEvent.recover)) +
+      (1 - recThr P s) * mass (s.links.chooseDist k) (fun o => Q (o.map fun p => GEvent.transmit p.1 p.2)) := by
+  unfold pickDist
+  rw [mass_bern_bind]
+  simp only [if_true, Bool.false_eq_true, if_false, mass_push]
+
+theorem pred_rec_rec (u : Node) :
+    (fun o : Option Node => (o.map GEvent.recover == some (GEvent.recover u))) = LD.eqSome u := by
+  funext o
+  cases o <;> simp [LD.eqSome]
+
+theorem pred_trans_rec (u : Node) :
+    (fun o : Option (Node × Node) => ((o.map fun p => GEvent.transmit p.1 p.2) == some (GEvent.recover u)))
+      = (fun _ => false) := by
+  funext o
+  cases o <;> simp
+
+theorem pred_rec_trans (u v : Node) :
+    (fun o : Option Node => (o.map GEvent.recover == some (GEvent.transmit u v))) = (fun _ => false) := by
+  funext o
+  cases o <;> simp
+
+theorem pred_trans_trans (u v : Node) :
+    (fun o : Option (Node × Node) => ((o.map fun p => GEvent.transmit p.1 p.2) == some (GEvent.transmit u v)))
+      = LD.eqSome (u, v) := by
+  funext o
+  cases o with
+  | none => simp [LD.eqSome]
+  | some p => obtain ⟨a, b⟩ := p; simp [LD.eqSome]
+
+theorem mass_pick_rec (P : GParams) (s : GState) (k : Nat) (u : Node) :
+    mass (pickDist P s k) (fun o => o == some (GEvent.recover u)) =
+      recThr P s * mass (s.inf.chooseDist k) (LD.eqSome u) := by
+  rw [mass_pick]
+  rw [pred_rec_rec, pred_trans_rec, mass_false]; ring
+
+theorem mass_pick_trans (P : GParams) (s : GState) (k : Nat) (u v : Node) :
+    mass (pickDist P s k) (fun o => o == some (GEvent.transmit u v)) =
+      (1 - recThr P s) * mass (s.links.chooseDist k) (LD.eqSome (u, v)) := by
+  rw [mass_pick]
+  rw [pred_rec_trans, pred_trans_trans, mass_false]; ring
+
+theorem weightSum_nonneg {α : Type} [DecidableEq α] (s : LD α) (h : LD.Inv s) (hwt : s.weighted = true) :
+    0 ≤ s.weightSum :=
+  sumRat_map_nonneg _ _ (h.nonneg hwt)
+
+theorem jump_law_rec' (P : GParams) (h : WF P) (s : GState) (hs : Inv P s) (hpos : 0 < totalRate P s)
+    (u : Node) (hu : u ∈ s.inf.items) (k : Nat) (hk : 0 < k) :
+    mass (pickDist P s k) (fun o => o == some (GEvent.recover u)) =
+      Chain.nodeRate P u / Chain.totalRate P s.status *
+        (if s.inf.weighted then 1 - s.inf.rejProb ^ k else 1) := by
+  rw [mass_pick_rec, ← clock_eq' P h s hs]
+  have hT : totalRate P s ≠ 0 := ne_of_gt hpos
+  cases hf : P.nw with
+  | none =>
+    have hw : s.inf.weighted = false := by rw [hs.infW, hf]; rfl
+    obtain ⟨k', rfl⟩ : ∃ k', k = k' + 1 := ⟨k - 1, by omega⟩
+    rw [LD.choose_law_unweighted_eqSome s.inf hs.infInv hw u hu k']
+    have hn : (s.inf.items.length : Rat) ≠ 0 := by
+      have : 0 < s.inf.items.length := List.length_pos_of_mem hu
+      exact_mod_cast (ne_of_gt this)
+    simp only [recThr, recRate, LD.totalWeight, Chain.nodeRate, hw, hf, Bool.false_eq_true, if_false]
+    field_simp
+  | some f =>
+    have hw : s.inf.weighted = true := by rw [hs.infW, hf]; rfl
+    have hW := weightSum_nonneg s.inf hs.infInv hw
+    simp only [recThr, recRate, LD.totalWeight, Chain.nodeRate, hw, hf, if_true]
+    rw [hs.infInv.total hw]
+    rcases lt_or_eq_of_le hW with hWpos | hW0
+    · rw [LD.choose_law_eqSome s.inf hs.infInv hw hWpos u hu k, hs.inf_w f hf u hu]
+      have hWne : s.inf.weightSum ≠ 0 := ne_of_gt hWpos
+      field_simp
+    · rw [← hW0]
+      simp [LD.rejProb, ← hW0]
+
+theorem jump_law_trans' (P : GParams) (h : WF P) (s : GState) (hs : Inv P s) (hpos : 0 < totalRate P s)
+    (u v : Node) (huv : (u, v) ∈ s.links.items) (k : Nat) (hk : 0 < k) :
+    mass (pickDist P s k) (fun o => o == some (GEvent.transmit u v)) =
+      Chain.edgeRate P u v / Chain.totalRate P s.status *
+        (if s.links.weighted then 1 - s.links.rejProb ^ k else 1) := by
+  rw [mass_pick_trans, ← clock_eq' P h s hs]
+  have hT : totalRate P s ≠ 0 := ne_of_gt hpos
+  have hthr : 1 - recThr P s = transRate P s / totalRate P s := by
+    unfold recThr
+    have : totalRate P s = recRate P s + transRate P s := rfl
+    field_simp
+    rw [this]; ring
+  rw [hthr]
+  cases hf : P.ew with
+  | none =>
+    have hw : s.links.weighted = false := by rw [hs.linkW, hf]; rfl
+    obtain ⟨k', rfl⟩ : ∃ k', k = k' + 1 := ⟨k - 1, by omega⟩
+    rw [LD.choose_law_unweighted_eqSome s.links hs.linkInv hw (u, v) huv k']
+    have hn : (s.links.items.length : Rat) ≠ 0 := by
+      have : 0 < s.links.items.length := List.length_pos_of_mem huv
+      exact_mod_cast (ne_of_gt this)
+    simp only [transRate, LD.totalWeight, Chain.edgeRate, hw, hf, Bool.false_eq_true, if_false]
+    field_simp
+  | some f =>
+    have hw : s.links.weighted = true := by rw [hs.linkW, hf]; rfl
+    have hW := weightSum_nonneg s.links hs.linkInv hw
+    simp only [transRate, LD.totalWeight, Chain.edgeRate, hw, hf, if_true]
+    rw [hs.linkInv.total hw]
+    rcases lt_or_eq_of_le hW with hWpos | hW0
+    · rw [LD.choose_law_eqSome s.links hs.linkInv hw hWpos (u, v) huv k, hs.link_w f hf (u, v) huv]
+      have hWne : s.links.weightSum ≠ 0 := ne_of_gt hWpos
+      field_simp
+    · rw [← hW0]
+      simp [LD.rejProb, ← hW0]
+
+theorem jump_law_support' (P : GParams) (s : GState) (k : Nat) (e : GEvent) (he : ¬ Enabled s e) :
+    mass (pickDist P s k) (fun o => o == some e) = 0 := by
+  cases e with
+  | recover u =>
+    rw [mass_pick_rec, LD.chooseDist_not_mem s.inf u he k]; ring
+  | transmit u v =>
+    rw [mass_pick_trans, LD.chooseDist_not_mem s.links (u, v) he k]; ring
 
 end Gillespie
